@@ -12,6 +12,11 @@ import time
 VERIF = os.path.dirname(os.path.dirname(os.path.abspath(__file__)))
 EVIDENCE_DIR = os.path.join(VERIF, "evidence")
 REPLAY_DIR = os.path.join(VERIF, "replays")
+if os.environ.get("GTIRB_VERIF_REPO"):
+    # mutation / seeded-change runs against a scratch copy: never touch the
+    # committed evidence or the replays of the real tree
+    EVIDENCE_DIR = os.path.join(VERIF, ".stage", "alt", "evidence")
+    REPLAY_DIR = os.path.join(VERIF, ".stage", "alt", "replays")
 KNOWN_FILE = os.path.join(VERIF, "known_findings.json")
 
 NPROC = int(os.environ.get("VERIF_NPROC", "0")) or min(16, os.cpu_count() or 1)
